@@ -37,15 +37,17 @@ def log(*a):
 def build_harness(race=False):
     """Rebuild the harness against /repo's current working tree (hooks tag on)."""
     os.makedirs(BUILD, exist_ok=True)
-    gosum = os.path.join(HARNESS, "go.sum")
-    if not os.path.exists(gosum) or os.path.getmtime(gosum) < os.path.getmtime("/repo/go.sum"):
-        shutil.copy("/repo/go.sum", gosum)
+    import fcntl
     out = VERIFH + ("_race" if race else "")
-    cmd = ["go", "build", "-tags", "verif"] + (["-race"] if race else []) + ["-o", out, "./cmd/verifh"]
+    tmp = out + ".%d.tmp" % os.getpid()
+    cmd = ["go", "build", "-tags", "verif"] + (["-race"] if race else []) + ["-o", tmp, "./cmd/verifh"]
     t0 = time.time()
-    p = subprocess.run(cmd, cwd=HARNESS, env=GOENV, capture_output=True, text=True)
-    if p.returncode != 0:
-        raise InfraError("harness build failed (does /repo still compile?):\n" + p.stdout + p.stderr)
+    with open(os.path.join(BUILD, ".lock"), "w") as lk:
+        fcntl.flock(lk, fcntl.LOCK_EX)      # concurrent checks share one output path
+        p = subprocess.run(cmd, cwd=HARNESS, env=GOENV, capture_output=True, text=True)
+        if p.returncode != 0:
+            raise InfraError("harness build failed (does /repo still compile?):\n" + p.stdout + p.stderr)
+        os.replace(tmp, out)
     log("[build] harness built in %.1fs" % (time.time() - t0))
     return out
 
